@@ -52,6 +52,7 @@ class SimNet:
         self.inbox = collections.defaultdict(collections.deque)
         self.pumping = set()
         self.sent = 0
+        self.in_flight = 0          # datagram copies scheduled but not yet handed to the receiver's inbox
         self.delivered = 0
         self.dropped = 0
         self.duplicated = 0
@@ -95,9 +96,14 @@ class SimNet:
             if when < self._last_arrival.get(key, 0):
                 self.reordered += 1
             self._last_arrival[key] = max(when, self._last_arrival.get(key, 0))
+            self.in_flight += 1
             self.loop.call_later(delay, self._arrive, src, dst, data)
 
+    def idle(self):
+        return self.in_flight == 0 and not any(self.inbox.values())
+
     def _arrive(self, src, dst, data):
+        self.in_flight -= 1
         self.inbox[dst].append((src, data))
         if dst not in self.pumping:
             self.pumping.add(dst)
